@@ -38,17 +38,25 @@ func ents(after uint64, n int, term uint64, size int) []raftpb.Entry {
 }
 
 // AppAlphabet: raft-producible MsgApp messages with tiny field domains + link heartbeat.
+// Thorough widens the msgappv2 alphabet (terms 1..3, index 0..5, up to 3 entries, three commit values): the
+// context state space grows with it and is still explored to its fixpoint.
+var Thorough bool
+
 func AppAlphabet() []raftpb.Message {
 	var ms []raftpb.Message
+	terms, indexes, counts, commits := []uint64{1, 2}, []uint64{0, 1, 2, 3}, []int{0, 1, 2}, []uint64{0, 2}
+	if Thorough {
+		terms, indexes, counts, commits = []uint64{1, 2, 3}, []uint64{0, 1, 2, 3, 4, 5}, []int{0, 1, 2, 3}, []uint64{0, 2, 5}
+	}
 	for _, p := range pairs {
-		for _, term := range []uint64{1, 2} {
-			for _, logTerm := range []uint64{1, 2} {
+		for _, term := range terms {
+			for _, logTerm := range terms {
 				if logTerm > term {
 					continue
 				}
-				for _, index := range []uint64{0, 1, 2, 3} {
-					for _, n := range []int{0, 1, 2} {
-						for _, commit := range []uint64{0, 2} {
+				for _, index := range indexes {
+					for _, n := range counts {
+						for _, commit := range commits {
 							ms = append(ms, raftpb.Message{Type: raftpb.MsgApp, From: p[0].RaftReplicaId, To: p[1].RaftReplicaId, FromGroup: p[0], ToGroup: p[1],
 								Term: term, LogTerm: logTerm, Index: index, Entries: ents(index, n, term, 3), Commit: commit})
 						}
